@@ -228,10 +228,10 @@ type c16Harness struct {
 	events    []string
 
 	cmdIdx int          // global index of kernel-changing commands in this case
-	faults map[int]bool // index -> seen as write failure (restore lines only)
+	faults map[int]int // index -> 0: bad exit status only; d>=1: Felix's write fails d-1 restore lines after the process died
 
 	nFaults, nNatural, nSwaps, nCmds int
-	leakShape                        bool
+	leakShape, delayed               bool
 }
 
 func (h *c16Harness) timeNow() time.Time {
@@ -318,6 +318,7 @@ type c16Restore struct {
 	lineIdx int
 	dead    bool // a line has failed: the process is gone
 	werr    bool // ... and Felix has been told through a failed write
+	wdelay  int  // >0: the write of the wdelay-th line from now fails (only once dead)
 }
 
 func (r *c16Restore) StdinPipe() (ipsets.WriteCloserFlusher, error) { return r, nil }
@@ -384,22 +385,37 @@ func (r *c16Restore) Write(p []byte) (int, error) {
 		idx := r.lineIdx
 		r.lineIdx++
 		if r.dead {
+			if r.wdelay > 0 {
+				r.wdelay--
+				if r.wdelay == 0 {
+					r.werr = true
+					h.cur.wfail = true
+					h.delayed = true
+					if len(b.lines) > 1 && strings.HasPrefix(b.lines[0], "CCreate (1,") {
+						h.leakShape = true
+					}
+					return 0, errors.New("broken pipe")
+				}
+			}
 			continue // written into the void
 		}
-		asWrite, inj := h.faults[h.cmdIdx]
+		mode, inj := h.faults[h.cmdIdx]
 		h.cmdIdx++
 		if inj {
 			h.nFaults++
 			h.cur.inj = idx
 			r.dead = true
 			h.record(cq, false)
-			if asWrite {
+			if mode == 1 {
 				r.werr = true
 				h.cur.wfail = true
 				if len(b.lines) > 1 && strings.HasPrefix(b.lines[0], "CCreate (1,") {
 					h.leakShape = true // a temporary set was created by a writeUpdates call that then saw a failed write
 				}
 				return 0, errors.New("broken pipe")
+			}
+			if mode > 1 {
+				r.wdelay = mode - 1
 			}
 			continue
 		}
@@ -451,7 +467,7 @@ func c16new(k0 map[string]c16kset) *c16run {
 		dp.IPSetMetadata[name] = setMetadata{Name: name, Family: ipsets.IPFamilyV4, Type: c16types[ks.meta.ty],
 			MaxSize: ks.meta.max, RangeMin: ks.meta.rmin, RangeMax: ks.meta.rmax}
 	}
-	h := &c16Harness{dp: dp, now: time.Unix(1000, 0), faults: map[int]bool{}}
+	h := &c16Harness{dp: dp, now: time.Unix(1000, 0), faults: map[int]int{}}
 	h.prev = c16snapshot(dp)
 	h.cur = &c16attempt{inj: -1}
 	r := &c16run{h: h, want: map[int]c16meta{}}
@@ -518,9 +534,9 @@ func (r *c16run) external(f func(dp *mockDataplane)) {
 }
 
 // one ApplyUpdates + ApplyDeletions; budget 0 = unlimited background re-lists
-func (r *c16run) apply(budget int, faults map[int]bool) (resched bool) {
+func (r *c16run) apply(budget int, faults map[int]int) (resched bool) {
 	h := r.h
-	h.faults = map[int]bool{}
+	h.faults = map[int]int{}
 	for k, v := range faults {
 		h.faults[h.cmdIdx+k] = v
 	}
@@ -561,7 +577,7 @@ func (r *c16run) apply(budget int, faults map[int]bool) (resched bool) {
 	return
 }
 
-func (r *c16run) applyUntilQuiet(budget int, faults map[int]bool) {
+func (r *c16run) applyUntilQuiet(budget int, faults map[int]int) {
 	for i := 0; i < 30; i++ {
 		resched := r.apply(budget, faults)
 		faults = nil
@@ -584,7 +600,7 @@ func c16probe() bool {
 	r.addOrReplace(0, c16meta{0, 100, 0, 0}, []int{1})
 	r.applyUntilQuiet(0, nil) // start-of-day resync done
 	r.addOrReplace(0, c16meta{0, 200, 0, 0}, []int{1, 2})
-	r.applyUntilQuiet(0, map[int]bool{3: true}) // create, add, add, swap
+	r.applyUntilQuiet(0, map[int]int{3: 1}) // create, add, add, swap
 	for name := range r.h.dp.IPSetMembers {
 		if strings.HasPrefix(name, "cali4t") {
 			return false
@@ -627,8 +643,8 @@ func c16genKset(g *c16rng, m c16meta) c16kset {
 	sort.Strings(ms)
 	return c16kset{meta: m.norm(), members: ms}
 }
-func c16genFaults(g *c16rng, stream string) map[int]bool {
-	f := map[int]bool{}
+func c16genFaults(g *c16rng, stream string) map[int]int {
+	f := map[int]int{}
 	p := 45
 	if stream == "faulty" {
 		p = 85
@@ -641,7 +657,14 @@ func c16genFaults(g *c16rng, stream string) map[int]bool {
 		n = 1 + g.intn(4)
 	}
 	for i := 0; i < n; i++ {
-		f[g.intn(10)] = g.chance(30)
+		switch x := g.intn(10); {
+		case x < 4:
+			f[g.intn(10)] = 0
+		case x < 6:
+			f[g.intn(10)] = 1
+		default:
+			f[g.intn(8)] = 2 + g.intn(6) // the write error surfaces 1..6 lines after the process died
+		}
 	}
 	return f
 }
@@ -682,8 +705,14 @@ func c16genCase(g *c16rng, stream string) (*c16run, []string) {
 		if round == 0 {
 			nops = 1 + g.intn(3)
 		}
+		if stream == "batch" {
+			nops = nIDs + g.intn(2) // every set is touched: several dirty sets in one restore session
+		}
 		for i := 0; i < nops; i++ {
 			id := g.intn(nIDs)
+			if stream == "batch" {
+				id = i % nIDs
+			}
 			_, have := r.want[id]
 			switch x := g.intn(10); {
 			case !have || x < 3:
@@ -750,8 +779,11 @@ func c16genCase(g *c16rng, stream string) (*c16run, []string) {
 			r.queueResync()
 		}
 		budget := []int{0, 0, 1, 2}[g.intn(4)]
-		var faults map[int]bool
-		if stream != "clean-start" || g.chance(30) {
+		var faults map[int]int
+		if stream == "batch" {
+			// the process dies while an early set is written, Felix notices while writing a later line
+			faults = map[int]int{g.intn(4): []int{0, 1, 2, 3, 4, 6, 8}[g.intn(7)]}
+		} else if stream != "clean-start" || g.chance(30) {
 			faults = c16genFaults(g, stream)
 		}
 		r.applyUntilQuiet(budget, faults)
@@ -775,6 +807,9 @@ func c16genCase(g *c16rng, stream string) (*c16run, []string) {
 	}
 	if h.leakShape {
 		tags = append(tags, "leak-shape")
+	}
+	if h.delayed {
+		tags = append(tags, "faults:delayed-write-error")
 	}
 	return r, tags
 }
@@ -826,7 +861,7 @@ func TestVerifC16(t *testing.T) {
 	defer f.Close()
 	enc := json.NewEncoder(f)
 	g := &c16rng{s: seed*0x9e3779b97f4a7c15 + 16}
-	streams := []string{"random", "random", "faulty", "faulty", "drift", "clean-start"}
+	streams := []string{"random", "batch", "faulty", "batch", "drift", "clean-start", "faulty", "batch"}
 	for i := 0; i < n; i++ {
 		stream := streams[i%len(streams)]
 		r, tags := c16genCase(g, stream)
